@@ -365,13 +365,5 @@ theorem istep_example :
 
 example : [' ', 'x'] <:+ [' ', 'a', 'b', ' ', 'x'] := istep_suffix _ _ _ _ _ _ istep_example
 
-#eval (({} : Raw).decode "@a{1} x".toList).2.1   -- what `decode` leaves after the first document
-
 end SwimVerif.ReconInc
 
-section
-open SwimVerif.ReconInc
-#print axioms istep_suffix
-#print axioms decodeInner_suffix
-#print axioms Raw.decode_suffix
-end
